@@ -282,6 +282,54 @@ fn c16_prefix() {
 }
 
 
+/// C16: affixes of a custom decorator surround the element text verbatim (also inside nested inline elements)
+#[derive(Clone)]
+struct AffixDec;
+impl TextDecorator for AffixDec {
+    type Annotation = ();
+    fn decorate_link_start(&mut self, _u: &str) -> (String, ()) { ("\u{27e6}".into(), ()) }
+    fn decorate_link_end(&mut self) -> String { "\u{27e7}".into() }
+    fn decorate_em_start(&self) -> (String, ()) { ("<e:".into(), ()) }
+    fn decorate_em_end(&self) -> String { ":e>".into() }
+    fn decorate_strong_start(&self) -> (String, ()) { ("<b:".into(), ()) }
+    fn decorate_strong_end(&self) -> String { ":b>".into() }
+    fn decorate_strikeout_start(&self) -> (String, ()) { ("<s~".into(), ()) }
+    fn decorate_strikeout_end(&self) -> String { "~s>".into() }
+    fn decorate_code_start(&self) -> (String, ()) { ("<c`".into(), ()) }
+    fn decorate_code_end(&self) -> String { "`c>".into() }
+    fn decorate_preformat_first(&self) {}
+    fn decorate_preformat_cont(&self) {}
+    fn decorate_image(&mut self, _s: &str, t: &str) -> (String, ()) { (t.into(), ()) }
+    fn header_prefix(&self, l: usize) -> String { "#".repeat(l) + " " }
+    fn quote_prefix(&self) -> String { "> ".into() }
+    fn unordered_item_prefix(&self) -> String { "* ".into() }
+    fn ordered_item_prefix(&self, i: i64) -> String { format!("{}. ", i) }
+    fn make_subblock_decorator(&self) -> Self { self.clone() }
+}
+fn c16_affix() {
+    // (element, prefix, suffix); the element text is the token W; strike-through characters (U+0336) are removed from the element text only
+    let els = [("em", "<e:", ":e>"), ("strong", "<b:", ":b>"), ("s", "<s~", "~s>"), ("del", "<s~", "~s>"), ("code", "<c`", "`c>")];
+    let mut cases = 0u64;
+    for (el, pre, suf) in els { for outer in ["", "em", "s", "strong"] { for unicode in [true, false] { for w in [80usize, 12] {
+        let inner = format!("<{el}>W</{el}>", el = el);
+        let html = if outer.is_empty() { format!("<p>a {} z</p>", inner) } else { format!("<p>a <{o}>{}</{o}> z</p>", inner, o = outer) };
+        cases += 1;
+        let h = html.clone();
+        let r = panic::catch_unwind(move || config::with_decorator(AffixDec).unicode_strikeout(unicode).string_from_read(h.as_bytes(), w));
+        if let Ok(Ok(out)) = r {
+            // an enclosing <s> legitimately strikes through everything inside it, affixes of inner elements included
+            let struck_outside = outer == "s" && unicode;
+            let flat: String = out.split_whitespace().collect::<Vec<_>>().join(" ");
+            let body = if (el == "s" || el == "del") && unicode { "W\u{336}" } else { "W" };
+            let expect = format!("{}{}{}", pre, body, suf);
+            if !struck_outside && !flat.contains(&expect) {
+                found("c16_affix", &format!("width={} unicode_strikeout={} html={}", w, unicode, html), &format!("output {:?} does not contain {:?}", flat, expect));
+            }
+        }
+    }}}}
+    println!("NONE {}", cases);
+}
+
 /// C01/C07: ordered lists with extreme start values
 fn c07_ol() {
     let starts = ["9223372036854775807", "9223372036854775806", "-9223372036854775808", "0", "-1", "98"];
@@ -378,6 +426,7 @@ fn main() {
         "c01_colspan" => c01_colspan(),
         "c07_ol" => c07_ol(),
         "c16_prefix" => c16_prefix(),
+        "c16_affix" => c16_affix(),
         "c20_nth" => c20_nth(),
         "c01_engine" => c01_engine(),
         "c02_tables" => c02_tables(),
